@@ -76,6 +76,7 @@ type Case struct {
 	Colls   []Coll `json:"colls,omitempty"`
 	Put     *Obj   `json:"put,omitempty"`
 	PutPath string `json:"put_path,omitempty"` // what the backend answers
+	PutRel  bool   `json:"put_rel,omitempty"`  // the PUT goes through a client whose endpoint is the collection, with a relative target
 	Fail    []int  `json:"fail,omitempty"`     // multiget-mixed: status per href (0 = ok)
 	Server  string `json:"server,omitempty"`
 	Lexical []int  `json:"lexical,omitempty"`
@@ -362,7 +363,14 @@ func evalCalDAV(c Case) (vev.Outcome, error) {
 		b.Reset()
 		b.PutResult = &caldav.CalendarObject{Path: c.PutPath, ETag: string(c.Put.ETag), ModTime: mt(c.Put.MTime)}
 		reqPath := home + "c/" + c.Put.Name
-		g, err := cl.PutCalendarObject(ctx, reqPath, data)
+		target, pcl := reqPath, cl
+		if c.PutRel {
+			if pcl, err = caldav.NewClient(hc, "http://dav.example"+(&url.URL{Path: home + "c/"}).EscapedPath()); err != nil {
+				return vev.Outcome{}, err
+			}
+			target = c.Put.Name
+		}
+		g, err := pcl.PutCalendarObject(ctx, target, data)
 		if err != nil {
 			return dev("caldav|put|error", "PutCalendarObject(%q): %v", reqPath, err), nil
 		}
@@ -382,7 +390,7 @@ func evalCalDAV(c Case) (vev.Outcome, error) {
 		}
 		wantPath := c.PutPath
 		if wantPath == "" {
-			wantPath = reqPath
+			wantPath = target // the backend names no path: the caller's own spelling is all the client has
 		}
 		if g.Path != wantPath {
 			return dev("caldav|put|returned-path", "client returned path %q, backend answered %q", g.Path, wantPath), nil
@@ -518,7 +526,14 @@ func evalCardDAV(c Case) (vev.Outcome, error) {
 		b.Reset()
 		b.PutResult = &carddav.AddressObject{Path: c.PutPath, ETag: string(c.Put.ETag), ModTime: mt(c.Put.MTime)}
 		reqPath := home + "b/" + c.Put.Name
-		g, err := cl.PutAddressObject(ctx, reqPath, card)
+		target, pcl := reqPath, cl
+		if c.PutRel {
+			if pcl, err = carddav.NewClient(hc, "http://dav.example"+(&url.URL{Path: home + "b/"}).EscapedPath()); err != nil {
+				return vev.Outcome{}, err
+			}
+			target = c.Put.Name
+		}
+		g, err := pcl.PutAddressObject(ctx, target, card)
 		if err != nil {
 			return dev("carddav|put|error", "PutAddressObject(%q): %v", reqPath, err), nil
 		}
@@ -537,7 +552,7 @@ func evalCardDAV(c Case) (vev.Outcome, error) {
 		}
 		wantPath := c.PutPath
 		if wantPath == "" {
-			wantPath = reqPath
+			wantPath = target // the backend names no path: the caller's own spelling is all the client has
 		}
 		if g.Path != wantPath {
 			return dev("carddav|put|returned-path", "client returned path %q, backend answered %q", g.Path, wantPath), nil
@@ -1088,9 +1103,13 @@ func TestPipelines(t *testing.T) {
 				c.PutPath = ""
 			case 1:
 				c.PutPath = home + "c/" + o.Name
+				if !cal {
+					c.PutPath = home + "b/" + o.Name // exactly where the request asked
+				}
 			default:
 				c.PutPath = home + genSeg(rt, "putcoll", "/") + genSeg(rt, "putname", ".new")
 			}
+			c.PutRel = rapid.IntRange(0, 2).Draw(rt, "putrel") == 0
 		}
 		run(t, rt, c)
 	})
@@ -1110,7 +1129,7 @@ func TestMultigetMixed(t *testing.T) {
 		n := rapid.IntRange(1, 6).Draw(rt, "nobjs")
 		for j := 0; j < n; j++ {
 			cl.Objs = append(cl.Objs, genObj(rt, j, cal))
-			c.Fail = append(c.Fail, rapid.SampledFrom([]int{0, 0, 0, 1, 403, 404, 507, 423, -404, -423, -403}).Draw(rt, "fail"))
+			c.Fail = append(c.Fail, rapid.SampledFrom([]int{0, 0, 0, 1, 403, 404, 507, 423, -404, -423, -403, 420, 599, 499}).Draw(rt, "fail"))
 		}
 		c.Colls = []Coll{cl}
 		run(t, rt, c)
